@@ -106,11 +106,11 @@ type raceResult struct {
 }
 
 // race runs the applicable variants concurrently and returns the first conclusive result.
-func race(script, file string, timeoutMs int, cover bool) (string, string, float64, []string) {
+func race(script, file string, timeoutMs int, cover bool, sliced ...string) (string, string, float64, []string) {
 	qf := !strings.Contains(script, "(forall ") && !strings.Contains(script, "(exists ")
 	ctx, cancel := context.WithTimeout(context.Background(), time.Duration(timeoutMs+1500)*time.Millisecond)
 	defer cancel()
-	ch := make(chan raceResult, len(variants))
+	ch := make(chan raceResult, len(variants)+8)
 	n := 0
 	for i := range variants {
 		v := &variants[i]
@@ -139,6 +139,22 @@ func race(script, file string, timeoutMs int, cover bool) (string, string, float
 			ch <- raceResult{v, r, out, dt}
 		}(v, f, ms)
 	}
+	// goal-directed slices: fewer assumptions, prove-only
+	for k, sc := range sliced {
+		if sc == "" {
+			continue
+		}
+		f := fmt.Sprintf("%s.hop%d.smt2", file, k+1)
+		os.WriteFile(f, []byte(sc), 0o644)
+		for _, vi := range []int{0, 1} {
+			v := &variant{name: fmt.Sprintf("%s/hop%d", variants[vi].name, k+1), cmd: variants[vi].cmd, proveOnly: true}
+			n++
+			go func(v *variant, f string) {
+				r, out, dt := runSolverCtx(ctx, v.cmd(f, timeoutMs))
+				ch <- raceResult{v, r, out, dt}
+			}(v, f)
+		}
+	}
 	var outs []string
 	total := 0.0
 	res, backend := "unknown", ""
@@ -166,23 +182,36 @@ func discharge(results []*FuncResult, workers int, timeoutMs int, seed int, keep
 	}
 	defer os.RemoveAll(tmp)
 	type job struct {
-		fr     *FuncResult
-		o      *Obl
-		id     int
-		script string
+		fr      *FuncResult
+		o       *Obl
+		id      int
+		script  string // all relevant assumptions (closure)
+		script1 string // assumptions within one hop of the goal
+		script2 string // within two hops
 	}
 	var jobs []job
 	for _, fr := range results {
 		for _, o := range fr.Obls {
-			jobs = append(jobs, job{fr, o, len(jobs), fr.VC.script(o, seed)})
+			j := job{fr: fr, o: o, id: len(jobs), script: fr.VC.script(o, 0)}
+			if !o.Cover {
+				j.script1 = fr.VC.script(o, 1)
+				j.script2 = fr.VC.script(o, 2)
+				if j.script2 == j.script {
+					j.script2 = ""
+				}
+				if j.script1 == j.script || j.script1 == j.script2 {
+					j.script1 = ""
+				}
+			}
+			jobs = append(jobs, j)
 		}
 	}
 	verdicts := make([]*Verdict, len(jobs))
 	var wg sync.WaitGroup
 	ch := make(chan job)
 	var mu sync.Mutex
-	if workers > 6 {
-		workers = workers * 3 / 8 // each job races several solver processes
+	if workers > 4 {
+		workers = workers / 4 // each job races several solver processes
 	}
 	for w := 0; w < workers; w++ {
 		wg.Add(1)
@@ -197,7 +226,7 @@ func discharge(results []*FuncResult, workers int, timeoutMs int, seed int, keep
 				if j.o.Cover {
 					tmo = 1500
 				}
-				r, backend, dt, outs := race(script, file, tmo, j.o.Cover)
+				r, backend, dt, outs := race(script, file, tmo, j.o.Cover, j.script1, j.script2)
 				v.TimeS, v.Backend = dt, backend
 				status := "undecided"
 				switch {
@@ -229,6 +258,12 @@ func discharge(results []*FuncResult, workers int, timeoutMs int, seed int, keep
 					os.MkdirAll(keepDir, 0o755)
 					dst := filepath.Join(keepDir, sanitize(j.o.Name)+".smt2")
 					os.WriteFile(dst, []byte(script), 0o644)
+					if j.script2 != "" {
+						os.WriteFile(dst+".hop2", []byte(j.script2), 0o644)
+					}
+					if j.script1 != "" {
+						os.WriteFile(dst+".hop1", []byte(j.script1), 0o644)
+					}
 					v.Script = dst
 					mu.Unlock()
 				}
